@@ -48,7 +48,9 @@ func c10Tables() []dbdrv.TableDef {
 		mk("tn", nil, ""),
 		mk("tx", []string{"x"}, ""),
 		mk("ty", []string{"y"}, ""),
-		mk("txy", []string{"x", "y"}, ""),
+		// declared out of alphabetical order: leader (routing) and follower (filtering) must still hash the key values
+		// in the same order
+		mk("txy", []string{"y", "x"}, ""),
 		mk("tw", []string{"x"}, "r = 'A'"),
 	}
 }
